@@ -10,7 +10,7 @@ def make_envs():
     envs = []
     for e in expr_gen.ENVS:
         m = Model(starttime=0.0, stoptime=3.0, dt=1.0, name="c02")
-        ns = {"sd": sd}
+        ns = {"sd": sd, "m": m}
         for n in "abc":
             el = m.constant(n)
             el.equation = float(Fraction(*e[n]))
